@@ -186,7 +186,7 @@ func TestC20(t *testing.T) {
 	chk := c20Fault.On(col, "fault enumeration: rapid-generated programs covering every tag (objects, assign, if/unless/case, for and tablerow with else/break/continue, cycle, capture, comment, raw, include of a cached template, whitespace-control hyphens); a fault-free FRender into a recording writer gives the W write calls, then for EVERY k in 0..W-1 x {the writer accepts nothing, accepts a strict prefix} x {Template.FRender, Engine.ParseAndFRender} a sticky fault writer fails at call k with a sentinel error. Oracle: no panic; a non-nil SourceError whose message or cause chain carries the sentinel; the accepted bytes are a prefix of the fault-free output; evaluation stops (counting filters evaluated <= the fault-free count at the write after next; at most one further Write call). evaluations counts fault points; non-trivial: W >= 3 and (k > 0 or a partial write); distinct by (template, k, mode, entry point)", false)
 	chk.Sub.Exhaustive = false
 	prof := hx.FullProfile()
-	prof.Tablerow, prof.WSText, prof.Ticks, prof.MaxNodes, prof.BareJumps = true, true, true, 10, true
+	prof.Tablerow, prof.WSText, prof.Ticks, prof.MaxNodes, prof.BareJumps, prof.LongText = true, true, true, 10, true, true
 	col.Rapid(chk.Sub, env.PerShard(env.Pick(8000, 80000)), func(t *rapid.T) {
 		p := hx.GenProgram(t, prof)
 		// values that print as several writes or as nothing (arrays with nil / empty tails), at random places
